@@ -1094,6 +1094,37 @@ class PathSens:
 
     # facts: dict key=(path, local) -> ('var', idx) | ('const', v) | ('discr_of', key)
 
+    def _peekables(self, body):
+        c = getattr(self, "_pk_cache", None)
+        if c is None:
+            c = self._pk_cache = {}
+        if body.id not in c:
+            c[body.id] = frozenset(l for l in range(len(body.raw["locals"])) if body.local_ty(l).startswith("std::iter::Peekable<"))
+        return c[body.id]
+
+    @staticmethod
+    def _root_local(body, op):
+        """The local a (re)borrowed operand refers to: `&mut it`, `&mut *r` with r = &mut it, or `it` itself."""
+        cur = op
+        for _ in range(6):
+            if not is_place(cur):
+                return None
+            p_ = cur["p"]
+            if p_["pr"] and not all(e["k"] == "deref" for e in p_["pr"]):
+                return None
+            l = p_["l"]
+            ds = body.whole_defs(l)
+            if len(ds) == 1 and ds[0][2] == "assign" and ds[0][3]["rv"]["k"] == "ref":
+                cur = {"k": "copy", "p": {"l": ds[0][3]["rv"]["p"]["l"], "pr": [e for e in ds[0][3]["rv"]["p"]["pr"] if e["k"] != "deref"]}}
+                if ds[0][3]["rv"]["p"]["pr"] and not all(e["k"] == "deref" for e in ds[0][3]["rv"]["p"]["pr"]):
+                    return None
+                continue
+            if len(ds) == 1 and ds[0][2] == "assign" and ds[0][3]["rv"]["k"] == "use" and is_place(ds[0][3]["rv"]["op"]) and body.local_ty(l).startswith("&"):
+                cur = ds[0][3]["rv"]["op"]
+                continue
+            return l
+        return None
+
     @staticmethod
     def _pk(key):
         return (key[0], key[1], "p")
@@ -1151,7 +1182,7 @@ class PathSens:
         # a moved-from local is dead: forgetting its facts keeps the state space small
         if op.get("k") == "move" and is_place(op) and not op["p"]["pr"] and (path, op["p"]["l"]) != key:
             src = (path, op["p"]["l"])
-            if not any(v[0] in ("discr_of", "ref_of") and v[1] == src for v in facts.values()):
+            if not any(v[0] in ("discr_of", "ref_of", "test_of", "peek_of") and v[1] == src for v in facts.values()):
                 self._clear(facts, src)
         self._clear(facts, key)
         if f is not None:
@@ -1333,6 +1364,22 @@ class PathSens:
                 else:
                     out.append(("otherwise", (path, t["otherwise"]), facts))
                 return out
+            if fact and fact[0] == "test_of":
+                # `if r.is_some()`: the edge taken tells r's variant (two-variant Option / Result)
+                tv = fact[2]
+                listed = dict((vv, tt) for vv, tt in t["targets"])
+                for bv in (0, 1):
+                    if bv in listed:
+                        tgt_, lab_ = listed[bv], bv
+                    elif len(listed) == 1:
+                        tgt_, lab_ = t["otherwise"], "otherwise"
+                    else:
+                        continue
+                    f2 = dict(facts)
+                    f2[fact[1]] = ("var", tv if bv == 1 else 1 - tv)
+                    f2[dkey] = ("const", bv)
+                    out.append((lab_, (path, tgt_), f2))
+                return out
             excluded = fact[2] if fact and fact[0] == "discr_of" and len(fact) > 2 else frozenset()
             for v, tgt in t["targets"]:
                 if v in excluded:
@@ -1454,6 +1501,30 @@ class PathSens:
                     tf = facts.get(tk)
                     if tf and tf[0] == "var" and tk != (path, t["args"][0]["p"]["l"]):
                         f2[dkey] = ("const", int(tf[1] == _VARIANT_TESTS[f["def"]]))
+                    elif tk != (path, t["args"][0]["p"]["l"]) and (tf is None or tf[0] == "notvar"):
+                        # unknown so far: branching on the answer settles the variant
+                        f2[dkey] = ("test_of", tk, _VARIANT_TESTS[f["def"]])
+                if f and t["args"]:
+                    pk_locals = self._peekables(body)
+                    if pk_locals:
+                        for ai, a in enumerate(t["args"]):
+                            rl = self._root_local(body, a)
+                            if rl is None or rl not in pk_locals:
+                                continue
+                            pkey = (path, rl, "peek")
+                            if f["def"] == "std::iter::Peekable::<I>::peek" and ai == 0 and not dest["pr"]:
+                                # the answer stays valid until the iterator is advanced
+                                known = facts.get(pkey)
+                                if known and known[0] == "peek_of" and facts.get(known[1]) and facts[known[1]][0] == "var":
+                                    f2[dkey] = facts[known[1]]
+                                f2[pkey] = ("peek_of", dkey)
+                            elif f["def"] == "std::iter::Iterator::next" and ai == 0 and "Peekable" in (f.get("self_ty") or body.local_ty(rl)) and not dest["pr"]:
+                                known = facts.get(pkey)
+                                if known and known[0] == "peek_of" and facts.get(known[1]) and facts[known[1]][0] == "var":
+                                    f2[dkey] = ("var", facts[known[1]][1])  # next() yields what peek() saw
+                                f2.pop(pkey, None)
+                            else:
+                                f2.pop(pkey, None)
                 if f and not dest["pr"] and f["def"].endswith("::transpose") and len(t["args"]) == 1 and self.payloads:
                     # Result<Option<T>, E> <-> Option<Result<T, E>>
                     af, apf, _ = self._operand_fact(facts, path, t["args"][0])
@@ -1645,7 +1716,7 @@ class PathSens:
         """Forget facts about locals of the current frame that are dead at the start of `node`."""
         path, bb = node
         live = self.sup.body_of(node).live_in().get(bb, frozenset())
-        linked = {v[1] for v in facts.values() if v[0] in ("discr_of", "ref_of")}
+        linked = {v[1] for v in facts.values() if v[0] in ("discr_of", "ref_of", "test_of", "peek_of")}
         out = {}
         for k, v in facts.items():
             if k[0] == path and k[1] not in live and (k[0], k[1]) not in linked:
